@@ -88,7 +88,9 @@ func NewTargetsManager(storeDir string, promRegistry prometheus.Registerer, log 
 func (t *TargetsManager) Load() error {
 	_ = os.MkdirAll(t.storeDir, 0755)
 	defer func() {
-		_ = t.UpdateTargets(&shard.UpdateTargetsRequest{Targets: t.targets.Targets})
+		// what was stored is resumed whatever the callbacks say: at a start Prometheus is often not up yet,
+		// it reads the generated configuration when it comes up
+		_ = t.updateTargets(&shard.UpdateTargetsRequest{Targets: t.targets.Targets}, false)
 	}()
 
 	data, err := ioutil.ReadFile(t.storePath())
@@ -124,6 +126,10 @@ func (t *TargetsManager) AddUpdateCallbacks(f ...func(targets map[string][]*targ
 
 // UpdateTargets update local targets
 func (t *TargetsManager) UpdateTargets(req *shard.UpdateTargetsRequest) (err error) {
+	return t.updateTargets(req, true)
+}
+
+func (t *TargetsManager) updateTargets(req *shard.UpdateTargetsRequest, undoOnFailure bool) (err error) {
 	defer func() {
 		targetsUpdatedTotal.WithLabelValues(fmt.Sprint(err == nil)).Inc()
 		targetsTotal.WithLabelValues().Set(float64(len(t.targets.Status)))
@@ -137,8 +143,10 @@ func (t *TargetsManager) UpdateTargets(req *shard.UpdateTargetsRequest) (err err
 	if err := t.doCallbacks(); err != nil {
 		// the request is answered with an error, so it must not be in force either: what this shard reports
 		// has to show the coordinator that it does not have what was asked for, or it is never asked again
-		undo()
-		t.targets = old
+		if undoOnFailure {
+			undo()
+			t.targets = old
+		}
 		return errors.Wrapf(err, "do callbacks")
 	}
 
